@@ -114,7 +114,10 @@ def bfs(make_pool, enabled, apply, canon, depth, on_step, max_states=200000, par
         pristine()
         pool = make_pool()
         for ev in hist:
-            r = apply(pool, ev)
+            try:
+                r = apply(pool, ev)
+            except Exception:
+                r = ('failed', None)          # an event that raises (also in a fresh state) still may leave hidden state behind
             pool.append(r)
         return pool
 
@@ -143,7 +146,9 @@ def bfs(make_pool, enabled, apply, canon, depth, on_step, max_states=200000, par
                     r, failed = None, e
                 transitions += 1
                 ok = on_step(hist, ev, before, pool, r, failed)
-                if failed is not None or not ok:
+                if failed is not None and ok == 'expand':
+                    r = ('failed', None)
+                elif failed is not None or not ok:
                     continue
                 pool.append(r)
                 try:
